@@ -357,7 +357,9 @@ func ruleLQDeleteSource(r *core.Reporter) {
 				}
 			}
 			if c, ok := in.(*ssa.Call); ok && ir.CalleeOf(c.Common()) == del {
-				if core.FuncName(fn) != rel(pkgLQ)+".finisherSender" {
+				// the sender, under whatever name / receiver it has today (function ↔ method conversions are aliases)
+				sender := p.Func(rel(pkgLQ), "finisherSender")
+				if fn != sender && core.FuncName(fn) != rel(pkgLQ)+".finisherSender" {
 					r.Violated("Delete/caller/"+core.FuncName(fn), p.InstrPos(in), "LQClient.Delete is called from %s: rows must only be deleted for seeds reported finished through the finish channel", core.FuncName(fn))
 				}
 			}
